@@ -70,6 +70,15 @@ def to_open_api_3_0(schema: JsonSchema) -> Dict[str, Any]:
                 result["anyOf"] = any_of
         else:
             result["type"] = result["type"][0]
+    # OpenAPI 3.0 (JSON schema draft 4): exclusive bounds are boolean modifiers
+    for bound, exclusive, stricter in (
+        ("minimum", "exclusiveMinimum", max),
+        ("maximum", "exclusiveMaximum", min),
+    ):
+        if exclusive in result and not isinstance(result[exclusive], bool):
+            value = result.pop(exclusive)
+            if bound not in result or stricter(value, result[bound]) == value:
+                result[bound], result[exclusive] = value, True
     if "examples" in result:
         result.setdefault("example", result.pop("examples")[0])
     if "const" in result:
